@@ -203,7 +203,7 @@ def obligations(tier):
     ]
     PA = ", ".join(n for n, _ in P)
     vpre = " and ".join(f"0 <= {x} <= 1" for x in ("a0", "a1", "a2", "b0", "b1", "b2"))
-    rids = ["R2", "R3", "R5"] + (["R1", "R7", "R9"] if thorough else [])
+    rids = ["R2", "R3", "R5", "R15"] + (["R1", "R7", "R9"] if thorough else [])
     ctypes = ["lru", "simple"] + (["hybrid", "disk"] if thorough else [])
     for rid in rids:
         t = R[rid]
